@@ -625,6 +625,18 @@ pub fn generate(group: &str, r: &mut Rng, n: usize) -> Vec<Value> {
                 }
                 let samples: Vec<Value> = entries.iter().map(|(s, ids)| json!({"state": [st_json(&states[*s])], "ids": ids})).collect();
                 out.push(ev("evaluate_samples", format!("d-samples-{k}"), json!({"inst": inst.json, "samples": samples})));
+                // the same samples registered one by one through Samples::add_sample; and a state that omits the variables
+                // the problem does not use, registered AFTER a state that mentions them and agrees everywhere else
+                if r.chance(1, 2) {
+                    out.push(ev("evaluate_samples", format!("d-samples-add-{k}"), json!({"inst": inst.json, "samples": samples, "build": "add_sample"})));
+                }
+                let full = inst.state(r, false);
+                let part: Vec<(u64, Value)> = full.iter().filter(|(id, _)| inst.used.contains(id)).cloned().collect();
+                if part.len() < full.len() {
+                    let (a, b) = if r.chance(3, 4) { (&full, &part) } else { (&part, &full) };
+                    let two = json!([{"state": [st_json(a)], "ids": [4, 1]}, {"state": [st_json(b)], "ids": [9]}]);
+                    out.push(ev("evaluate_samples", format!("d-samples-sub-{k}"), json!({"inst": inst.json, "samples": two, "build": "add_sample"})));
+                }
             }
         }
         "best" => {
